@@ -3,7 +3,7 @@
 Engine: E1 + E2.  Monitors evaluated at every pull of the instrumented iterator.
 """
 import random
-from sim.harness import H
+from sim.harness import H, hz_runs
 from sim import detsched as ds
 from . import par_common as pc
 from .par_common import V
@@ -49,7 +49,7 @@ def gen_case(rng):
 
 
 def plan(tier, seed):
-    for i in range(N_RUNS[tier]):
+    for i in range(hz_runs(N_RUNS, tier)):
         yield gen_case(random.Random(H(seed, PROP, i)))
 
 
